@@ -230,6 +230,7 @@ func runC11(p *load.Program, r *oblig.Report) {
 	c.ruleR10()
 	c.ruleR11()
 	c.ruleR12()
+	c.ruleR13()
 }
 
 // ruleR1: broker errors raised mid-frame are followed by a drain.
@@ -1297,4 +1298,34 @@ func (c *c11ctx) ruleR12() {
 		})
 	}
 	r.RequireCount(rule, n, 3)
+}
+
+// ruleR13: the helper that decodes the ApiVersions response inline accounts for the whole frame: every return on
+// which no read failed passes the "nothing left" check, so a response that is not consumed entirely (an early exit
+// on the error code, trailing bytes) closes the connection in ApiVersions (R2).
+func (c *c11ctx) ruleR13() {
+	const rule = "C11.R13 inline decoders account for the whole frame"
+	p, r := c.p, c.r
+	fn := p.Func("", "(*Conn).readApiVersionsResponse")
+	if fn == nil {
+		r.Lost(rule, "kafka.(*Conn).readApiVersionsResponse")
+		return
+	}
+	// follow only the edges on which the reads so far succeeded
+	edge := func(from *ssa.BasicBlock, si int) bool {
+		_, ci := an.IfCond(from)
+		if e := ci.Edge(token.NEQ); e >= 0 && an.IsNilConst(ci.Y) && isErrorType(ci.X.Type()) {
+			return si != e
+		}
+		return true
+	}
+	ok, bad := an.MustPass(fn, an.EntryPoint(fn), func(i ssa.Instruction) bool {
+		call, isC := i.(*ssa.Call)
+		return isC && call.Call.StaticCallee() != nil && an.RefFuncName(call.Call.StaticCallee()) == "expectZeroSize"
+	}, edge)
+	where := ""
+	if bad != nil {
+		where = "the exit at " + p.Pos(bad.Pos()) + " is reached, with every read successful, without checking that the frame was consumed"
+	}
+	r.Check(ok, rule, "kafka.(*Conn).readApiVersionsResponse ends with expectZeroSize on every path without a read error", p.Pos(fn.Pos()), "err = expectZeroSize(size, nil)", where)
 }
